@@ -159,6 +159,11 @@ def _run_pdy(ctx):
                         "mutating method, out=, np.put-family, writing callee) on a value that may alias one of its array/list parameters")
     res.rule("D-nondet", "no call/attribute in the package resolves into random, numpy.random, time, uuid, secrets, datetime, os.urandom, id(), hash(); no iteration over a set")
     res.rule("D-global", "no function mutates a module-level object in place")
+    res.rule("D-default", "no parameter that a function stores into (directly or through a callee) has a mutable default value: a default is one object shared by "
+                          "every call that omits the argument, i.e. hidden state between calls")
+    from .c15 import _mutable_defaults
+    from .common import RuleCtx as _RC
+    _mutable_defaults(_RC(ctx), rule="D-default", modules=None, need_one=True)
     res.rule("Y-layout", "guard only: no layout-revealing API (.strides .flags .data .ctypes .base .view() .tobytes() np.frombuffer order='K|A|F') applied to an argument-derived array")
     res.rule("Y-dtype", "guard only: no float-valued store into an array whose dtype is inherited from an argument (*_like / .copy() / np.array(arg))")
     ma = MutationAnalysis(ctx.repo, ctx.linker)
